@@ -39,11 +39,14 @@ type facts struct {
 	Balance    func(util.Uint160) int64
 	Accts      map[util.Uint160]*acct // accounts the harness knows (to judge witnesses)
 	// extensions
-	Blocks   []util.Uint256                          // hashes of the blocks on chain (height 1..)
+	Blocks   []util.Uint256                           // hashes of the blocks on chain (height 1..)
 	NamedAt  map[util.Uint256]map[util.Uint160]uint32 // like Named, with the index of the newest naming block per signer
-	MTB      uint32                                  // MaxTraceableBlocks
-	Deposits map[util.Uint160]int64                  // Notary deposits, from the history's construction
-	Deployed map[util.Uint160]bool                   // deployed contracts, from the history's construction
+	MTB      uint32                                   // MaxTraceableBlocks
+	Deposits map[util.Uint160]int64                   // Notary deposits, from the history's construction
+	Deployed map[util.Uint160]bool                    // deployed contracts, from the history's construction
+	// Partial: the rules of PoolTxWithData (partially filled transactions of the notary request pool)
+	Partial     bool
+	MaxNVBDelta uint32
 }
 
 // sCase is one submission of the soundness menu.
@@ -112,7 +115,7 @@ func valid(f *facts, c *sCase) (bool, string) {
 	if tx.ValidUntilBlock <= f.Height {
 		return false, "expired"
 	}
-	if tx.ValidUntilBlock > f.Height+f.MaxVUBInc {
+	if !f.Partial && tx.ValidUntilBlock > f.Height+f.MaxVUBInc {
 		return false, "ValidUntilBlock too far"
 	}
 	// policy
@@ -180,7 +183,16 @@ func valid(f *facts, c *sCase) (bool, string) {
 				return false, "OracleResponse pays less than the request reserved"
 			}
 		case transaction.NotValidBeforeT:
-			if a.Value.(*transaction.NotValidBefore).Height > f.Height {
+			nvb := a.Value.(*transaction.NotValidBefore).Height
+			if f.Partial {
+				// documented for partially filled transactions (verifyTxAttributes): within MaxNotValidBeforeDelta of the height and of ValidUntilBlock
+				if f.Height+f.MaxNVBDelta < nvb {
+					return false, "NotValidBefore further than MaxNotValidBeforeDelta in the future"
+				}
+				if nvb+f.MaxNVBDelta < tx.ValidUntilBlock {
+					return false, "NotValidBefore more than MaxNotValidBeforeDelta before ValidUntilBlock"
+				}
+			} else if nvb > f.Height {
 				return false, "NotValidBefore in the future"
 			}
 		case transaction.ConflictsT:
@@ -209,7 +221,7 @@ func valid(f *facts, c *sCase) (bool, string) {
 	}
 	// witnesses
 	msg := hash.NetSha256(f.Magic, hashOnly{h})
-	for i, s := range tx.Signers {
+	witnessOK := func(i int, s transaction.Signer) (bool, string) {
 		w := &tx.Scripts[i]
 		if s.Account == nativehashes.Notary {
 			if len(w.VerificationScript) != 0 || !tx.HasAttribute(transaction.NotaryAssistedT) || s.Scopes != transaction.None {
@@ -226,13 +238,13 @@ func valid(f *facts, c *sCase) (bool, string) {
 			if !good {
 				return false, "notary witness signature"
 			}
-			continue
+			return true, ""
 		}
 		if s.Account == nativehashes.OracleContract {
 			if len(w.VerificationScript) != 0 || len(w.InvocationScript) != 0 || !tx.HasAttribute(transaction.OracleResponseT) {
 				return false, "oracle contract witness"
 			}
-			continue
+			return true, ""
 		}
 		if ca := f.Accts[s.Account]; ca != nil && ca.Contract {
 			// contract-based witness: the deployed contract's verify method decides
@@ -248,7 +260,7 @@ func valid(f *facts, c *sCase) (bool, string) {
 			if g := c.Gas[i]; g > f.MaxVerGas {
 				return false, "verification too costly"
 			}
-			continue
+			return true, ""
 		}
 		if hash.Hash160(w.VerificationScript) != s.Account {
 			return false, "witness for another signer"
@@ -268,7 +280,7 @@ func valid(f *facts, c *sCase) (bool, string) {
 			if string(w.InvocationScript) != string(a.Inv(tx)) {
 				return false, "non-standard witness changed"
 			}
-			continue
+			return true, ""
 		}
 		sigs, ok := pushes(w.InvocationScript)
 		if !ok || len(sigs) != a.M {
@@ -283,6 +295,18 @@ func valid(f *facts, c *sCase) (bool, string) {
 				return false, "bad signature"
 			}
 			k++
+		}
+		return true, ""
+	}
+	for i, s := range tx.Signers {
+		if ok, why := witnessOK(i, s); !ok {
+			if f.Partial && i == 0 {
+				// documented for PoolTxWithData: the first witness of a partially filled
+				// transaction may be a dummy; which failures are tolerated is not judged
+				c.NoDemand = "first witness of a partially filled transaction: " + why
+				continue
+			}
+			return false, why
 		}
 	}
 	// solvency of the sender
